@@ -442,6 +442,13 @@ func normalizeDomainpart(domainpart string) (string, error) {
 		return domainpart, err
 	}
 
+	// The input may have ended in more than one label separator, in a separator
+	// followed by code points that are mapped to nothing, or in a separator
+	// that only becomes a dot during mapping (eg. U+3002); strip what is left
+	// at the end after mapping too so that the output is a fixed point of this
+	// function (and parsing the string form of a JID yields the same JID).
+	domainpart = strings.TrimRight(domainpart, ".")
+
 	if l := len(domainpart); l < 1 || l > 1023 {
 		return domainpart, errInvalidDomainLen
 	}
